@@ -2,7 +2,9 @@
 
 Generated histories mix ``begin_nested`` (depth <= 3), savepoint commit / rollback, outer
 commit / rollback / close with adds, modifications, deletes, primary-key switches, row
-switches, collection edits and flushes, with ``expire_on_commit`` on and off.  A
+switches, collection edits and flushes, with ``expire_on_commit`` on and off and about a
+third of the sessions created with ``autoflush=False`` (begin_nested() must flush pending
+work into the enclosing transaction regardless of that flag).  A
 *nested-transaction stack model lifted to rows* is the reference:
 
   frame 0            = dump of the committed rows + state kind of every tracked object
@@ -55,7 +57,7 @@ META = {
     "require": ["boundaries_judged", "savepoint_rollbacks_judged", "savepoint_commits_judged", "outer_rollbacks_judged",
                 "commits_judged", "closes_judged", "frame_dumps_compared", "created_objects_checked_transient",
                 "restored_objects_checked_persistent", "column_values_compared", "second_pass_values_loaded",
-                "pk_switch_rolled_back", "deletes_rolled_back", "scripted_histories"],
+                "pk_switch_rolled_back", "deletes_rolled_back", "scripted_histories", "histories_with_autoflush_off"],
     "assumptions": ["raw reads on the session's DBAPI connection show the in-transaction rows; the observer connection shows committed rows"],
 }
 
@@ -277,16 +279,22 @@ def judge_boundary(ctx, R, rig, model, op, ops, kd, pre_commit_dump, stats, relo
     return True
 
 
-def run_history(ctx, R, zoo, tpl, knobs, rng, maxops, sample=False, fixed=None, eoc=None):
+def run_history(ctx, R, zoo, tpl, knobs, rng, maxops, sample=False, fixed=None, eoc=None, autoflush=None):
     import sqlalchemy as sa
 
     if eoc is None:
         eoc = rng.random() < 0.5
+    if autoflush is None:
+        autoflush = rng.random() < 0.65
     fams = rng.sample(R.FAMILIES, rng.randint(1, 3))
-    rig = R.Rig(zoo, tpl, ctx.tmppath(".db"), expire_on_commit=eoc)
+    # autoflush=False: begin_nested() must still flush what is pending into the *enclosing*
+    # transaction before the SAVEPOINT is created
+    rig = R.Rig(zoo, tpl, ctx.tmppath(".db"), expire_on_commit=eoc, autoflush=autoflush)
+    if not autoflush:
+        ctx.count("histories_with_autoflush_off")
     it = R.Interp(rig)
     gen = R.Gen(rig, rng, fams, WEIGHTS)
-    kd = {"knobs": knobs, "expire_on_commit": eoc, "families": fams}
+    kd = {"knobs": knobs, "expire_on_commit": eoc, "autoflush": autoflush, "families": fams}
     model = Model(R, rig)
     ops = []
     stats = {"deleted_since": {}}   # frame depth -> ids of objects deleted while that frame was the top
@@ -338,6 +346,10 @@ def run_history(ctx, R, zoo, tpl, knobs, rng, maxops, sample=False, fixed=None, 
                 for d in range(depth + 1):
                     stats["deleted_since"].setdefault(d, set()).add(id(rig.objs[op[1]]))
             if op[0] == "nest":
+                # begin_nested() flushes pending work first: nothing may be pending now, and what
+                # the frame records as the savepoint's starting rows includes that work
+                if rig.session.new or rig.session.deleted or any(rig.session.is_modified(o) for o in rig.session.dirty):
+                    ctx.violation("work-pending-after-begin-nested", "begin_nested() left unflushed changes pending (they would be flushed inside the SAVEPOINT)", {"ops": list(ops), **kd})
                 model.frames.append(model.frame(rig.read_txn))
                 flushed_change = False
             elif op[0] in BOUNDARY:
@@ -389,6 +401,9 @@ SCRIPTED = [
     [["new", "Left", 0, {"name": "l"}, {}], ["commit"], ["nest"], ["nest"], ["new", "Right", 1, {"name": "r"}, {}], ["app", 0, "rights", 1], ["spc"], ["spr"], ["commit"]],
     # rowid reuse: delete in the outer transaction, insert in a savepoint that gets the same id, roll the savepoint back
     [["new", "Art", 0, {"title": "a"}, {}], ["commit"], ["del", 0], ["flush"], ["nest"], ["new", "Art", 1, {"title": "b"}, {}], ["flush"], ["spr"], ["rollback"]],
+    # work pending when the savepoint begins belongs to the enclosing transaction (decisive with autoflush off)
+    [["new", "Parent", 0, {"name": "p", "n": 1}, {}], ["commit"], ["touch", 0, "name"], ["set", 0, "name", "q"], ["new", "Child", 1, {"val": 1}, {"parent": 0}],
+     ["nest"], ["new", "Child", 2, {"val": 2}, {"parent": 0}], ["flush"], ["spr"], ["commit"]],
     # close with a flushed delete (the known close() finding is reported from here as well)
     [["new", "Tag", 0, {"word": "w"}, {}], ["commit"], ["del", 0], ["flush"], ["close"]],
 ]
@@ -453,8 +468,9 @@ def run(ctx):
         for j, fixed in enumerate(SCRIPTED):
             if ctx.mine(j):
                 for eoc in (True, False):
-                    run_history(ctx, R, zoo, tpl, KNOBS[ctx.shard % len(KNOBS)], rng, 99, fixed=fixed, eoc=eoc)
-                    ctx.count("scripted_histories")
+                    for af in (True, False):
+                        run_history(ctx, R, zoo, tpl, KNOBS[ctx.shard % len(KNOBS)], rng, 99, fixed=fixed, eoc=eoc, autoflush=af)
+                        ctx.count("scripted_histories")
         for h in range(nh):
             if not ctx.budget_ok():
                 break
